@@ -35,7 +35,7 @@ Definition format_from_date (c : pctx) : expr := DateV (from_day (c_from_ns c)).
 
 (* GetTypes *)
 Definition get_types (c : pctx) : expr :=
-  In (Raw "type") [IntV (if Z.eqb (c_type c) 0 then 1 else c_type c); IntV 0].
+  In (Id "type") [IntV (if Z.eqb (c_type c) 0 then 1 else c_type c); IntV 0].
 
 Definition sql_match (col pat : expr) : expr := Fn "match" [col; pat].
 
@@ -59,18 +59,18 @@ Inductive planner :=
 (* ---------- StreamSelectPlanner ---------- *)
 Definition val_clause (m : matcher) : expr :=
   match m_op m with
-  | MEq => Eq (Raw "val") (StrV (m_val m))
-  | MNeq => Neq (Raw "val") (StrV (m_val m))
-  | MRe => Eq (sql_match (Raw "val") (StrV (m_val m))) (IntV 1)
-  | MNre => Eq (sql_match (Raw "val") (StrV (m_val m))) (IntV 0)
+  | MEq => Eq (Id "val") (StrV (m_val m))
+  | MNeq => Neq (Id "val") (StrV (m_val m))
+  | MRe => Eq (sql_match (Id "val") (StrV (m_val m))) (IntV 1)
+  | MNre => Eq (sql_match (Id "val") (StrV (m_val m))) (IntV 0)
   end.
-Definition sel_clause (m : matcher) : expr := And [Eq (Raw "key") (StrV (m_name m)); val_clause m].
+Definition sel_clause (m : matcher) : expr := And [Eq (Id "key") (StrV (m_name m)); val_clause m].
 Definition stream_select (c : pctx) (ms : list matcher) : select :=
   let clauses := map sel_clause ms in
   and_having [Eq (BitSetAnd clauses) (IntV (2 ^ Z.of_nat (List.length clauses) - 1))]
-   (set_groupby [Raw "fingerprint"]
-    (and_where [Ge (Raw "date") (format_from_date c); get_types c; Or clauses]
-     (set_from (Raw (t_gin c)) (set_cols [Raw "fingerprint"] empty_select)))).
+   (set_groupby [Id "fingerprint"]
+    (and_where [Ge (Id "date") (format_from_date c); get_types c; Or clauses]
+     (set_from (Id (t_gin c)) (set_cols [Id "fingerprint"] empty_select)))).
 
 (* ---------- LabelFilterPlanner.makeSqlCond ---------- *)
 Definition lblop_numeric (s : simple_lf) : bool :=
@@ -82,7 +82,7 @@ Definition lblop_numeric (s : simple_lf) : bool :=
 Definition simple_cond (getter : option (string -> expr)) (s : simple_lf) : option expr :=
   let label := match getter with
                | Some g => g (slf_label s)
-               | None => Raw ("labels['" ++ slf_label s ++ "']") end in
+               | None => Idx (Id "labels") (QRaw (slf_label s)) end in
   if lblop_numeric s then
     let lbl := Fn "toFloat64OrNull" [label] in
     match slf_num s with
@@ -140,28 +140,28 @@ Definition esc_like (s : string) : string :=
   map_string (fun c => if Ascii.eqb c "\" then "\\" else if Ascii.eqb c "%" then "\%" else if Ascii.eqb c "_" then "\_" else ch c) s.
 Definition like_pattern (val : string) : string := "%" ++ esc_like val ++ "%".
 Definition do_like (like_op val : string) : expr :=
-  Eq (Raw (like_op ++ "(samples.string, " ++ quote (like_pattern val) ++ ")")) (IntV 1).
+  Eq (Fn like_op [Id "samples.string"; StrV (like_pattern val)]) (IntV 1).
 Definition line_filter_clause (op : lfop) (val : string) (re_lit : option (string * bool)) : expr :=
   match op with
   | LFContains => do_like "like" val
   | LFNotContains => do_like "notLike" val
   | LFRe => match re_lit with
             | Some (lit, insens) => do_like (if insens then "ilike" else "like") lit
-            | None => Eq (sql_match (Raw "string") (StrV val)) (IntV 1)
+            | None => Eq (sql_match (Id "string") (StrV val)) (IntV 1)
             end
   | LFNre => match re_lit with
              | Some (lit, insens) => do_like (if insens then "notILike" else "notLike") lit
-             | None => Eq (sql_match (Raw "string") (StrV val)) (IntV 0)
+             | None => Eq (sql_match (Id "string") (StrV val)) (IntV 0)
              end
   end.
 
 (* ---------- ParserPlanner (json with parameters) ---------- *)
 Definition json_path_sql (path : list string) : expr :=
   WithId (fun id =>
-    let jp := "jp_" ++ string_of_N id in
-    Raw ("if(JSONType(string, " ++ join "," (map quote path) ++ " as " ++ jp ++ ") == 'String', " ++
-         "JSONExtractString(string, " ++ jp ++ "), " ++
-         "JSONExtractRaw(string, " ++ jp ++ "))")).
+    let jp := Id ("jp_" ++ string_of_N id) in
+    Fn "if" [Sep " == " [Fn "JSONType" [Id "string"; Sep " as " [Sep "," (map StrV path); jp]]; StrV "String"];
+             Fn "JSONExtractString" [Id "string"; jp];
+             Fn "JSONExtractRaw" [Id "string"; jp]]).
 Definition sql_json_parser (labels : list string) (paths : list (list string)) : expr :=
   Sep "" [Raw "mapFromArrays(["; Sep "," (map StrV labels); Raw "], ["; Sep "," (map json_path_sql paths); Raw "])"].
 Fixpoint all_paths (ps : list parser_param) : option (list (list string)) :=
@@ -175,27 +175,28 @@ Definition fp_of_labels : expr := Raw "cityHash64(arraySort(arrayZip(mapKeys(lab
 
 (* ---------- PlannerDrop: mapDropFilter ---------- *)
 Definition drop_clause (p : string * option string) : expr :=
+  let key_only := Sep "" [Raw "k!="; StrV (fst p)] in
   match snd p with
-  | Some v => if String.eqb v "" then Raw ("k!=" ++ quote (fst p))
-              else Raw ("(k, v)!=(" ++ quote (fst p) ++ ", " ++ quote v ++ ")")
-  | None => Raw ("k!=" ++ quote (fst p))
+  | Some v => if String.eqb v "" then key_only
+              else Sep "" [Raw "(k, v)!=("; StrV (fst p); Raw ", "; StrV v; Raw ")"]
+  | None => key_only
   end.
 Definition map_drop_filter (col : expr) (params : list (string * option string)) : expr :=
   Fn "mapFilter" [Sep "" [Raw "(k,v) -> "; Sep " and " (map drop_clause params)]; col].
 
 (* ---------- the SELECT skeletons ---------- *)
 Definition main_init (c : pctx) : select :=
-  and_prewhere [Ge (Raw "samples.timestamp_ns") (IntV (c_from_ns c));
-                Lt (Raw "samples.timestamp_ns") (IntV (c_to_ns c)); get_types c]
+  and_prewhere [Ge (Id "samples.timestamp_ns") (IntV (c_from_ns c));
+                Lt (Id "samples.timestamp_ns") (IntV (c_to_ns c)); get_types c]
    (set_from (SimpleCol (t_samples c) "samples")
     (set_cols [SimpleCol "samples.timestamp_ns" "timestamp_ns"; SimpleCol "samples.fingerprint" "fingerprint";
-               SimpleCol "samples.string" "string"; SimpleCol "toFloat64(0)" "value"] empty_select)).
+               SimpleCol "samples.string" "string"; Col (Fn "toFloat64" [IntV 0]) "value"] empty_select)).
 Definition ts_labels_expr : string :=
   "mapFromArrays(arrayMap(x -> x.1, JSONExtractKeysAndValues(time_series.labels, 'String') as rawlbls), arrayMap(x -> x.2, rawlbls))".
 Definition ts_init (c : pctx) : select :=
-  and_prewhere [Ge (Raw "time_series.date") (format_from_date c); get_types c]
+  and_prewhere [Ge (Id "time_series.date") (format_from_date c); get_types c]
    (set_from (SimpleCol (t_ts_dist c) "time_series")
-    (set_cols [SimpleCol "time_series.fingerprint" "fingerprint"; SimpleCol ts_labels_expr "labels"] empty_select)).
+    (set_cols [SimpleCol "time_series.fingerprint" "fingerprint"; Col (Raw ts_labels_expr) "labels"] empty_select)).
 Definition join_type (c : pctx) : string := if c_cluster c then "GLOBAL ANY LEFT " else "ANY LEFT ".
 
 (* ---------- Process ---------- *)
@@ -223,13 +224,13 @@ Fixpoint process (p : planner) (c : pctx) (st : pst) {struct p} : res (select * 
     do (main, st1, fpsel') <- process fpsel c st;
     let '(i, st2) := next_id st1 in
     let id := "subsel_" ++ string_of_N i in
-    let req := and_where [In (Raw "fingerprint") [WRef id main]]
-                 (set_from (Raw (t_ts c)) (set_cols [Raw "fingerprint"] (with_ [(id, main)] empty_select))) in
-    do cond <- lf_cond (Some (fun s => Raw ("JSONExtractString(labels, '" ++ s ++ "')"))) f;
+    let req := and_where [In (Id "fingerprint") [WRef id main]]
+                 (set_from (Id (t_ts c)) (set_cols [Id "fingerprint"] (with_ [(id, main)] empty_select))) in
+    do cond <- lf_cond (Some (fun s => Fn "JSONExtractString" [Id "labels"; QRaw s])) f;
     Some (and_where [cond] req, st2, PSimpleLabelFilter f fpsel')
   | PFingerprintFilter fp main =>
     do (r, st1, main', fp') <- with_connector process main fp c st
-           (fun q w => and_where [In (Raw "samples.fingerprint") [WRef (fst w) (snd w)]] q);
+           (fun q w => and_where [In (Id "samples.fingerprint") [WRef (fst w) (snd w)]] q);
     Some (r, st1, PFingerprintFilter fp' main')
   | PMainInit => Some (main_init c, st, p)
   | PTimeSeriesInit => Some (ts_init c, st, p)
@@ -256,13 +257,13 @@ Fixpoint process (p : planner) (c : pctx) (st : pst) {struct p} : res (select * 
     Some (set_cols (patch_col (s_cols req) "labels" (fun l => map_drop_filter l params)) req, st1, PDropP params main')
   | PLabelsJoin main fp ts with_lc =>
     do (tsreq, st1, ts', fp') <- with_connector process ts fp c st
-           (fun q w => and_prewhere [In (Raw "time_series.fingerprint") [WRef (fst w) (snd w)]] q);
+           (fun q w => and_prewhere [In (Id "time_series.fingerprint") [WRef (fst w) (snd w)]] q);
     do (mainreq, st2, main') <- process main c st1;
     let wmain := ("main", mainreq) in
     let wts := ("_time_series", tsreq) in
     let st3 := if with_lc then set_labels_cache wts st2 else st2 in
     Some (set_joins [(join_type c, WRef "_time_series" tsreq,
-                      Some (Eq (Raw "main.fingerprint") (Raw "_time_series.fingerprint")))]
+                      Some (Eq (Id "main.fingerprint") (Id "_time_series.fingerprint")))]
            (set_from (WRef "main" mainreq)
             (set_cols [SimpleCol "main.fingerprint" "fingerprint"; SimpleCol "main.timestamp_ns" "timestamp_ns";
                        SimpleCol "_time_series.labels" "labels"; SimpleCol "main.string" "string";
@@ -278,7 +279,7 @@ Fixpoint process (p : planner) (c : pctx) (st : pst) {struct p} : res (select * 
            (set_from (Col (WRef a m) "samples") (with_ [(a, m)] empty_select)), st2, PMainRenew main' use_labels)
   | PMainOrderBy cols main =>
     do (req, st1, main') <- process main c st;
-    Some (set_orderby (map (fun x => Ord (Raw x) (c_asc c)) cols) req, st1, PMainOrderBy cols main')
+    Some (set_orderby (map (fun x => Ord (Id x) (c_asc c)) cols) req, st1, PMainOrderBy cols main')
   | PMainLimit main =>
     do (req, st1, main') <- process main c st;
     Some ((if Z.eqb (c_limit c) 0 then req else set_limit (Some (IntV (c_limit c))) req), st1, PMainLimit main')
@@ -291,12 +292,12 @@ Fixpoint process (p : planner) (c : pctx) (st : pst) {struct p} : res (select * 
     if is_matrix then
       Some (base [SimpleCol (a ++ ".fingerprint") "fingerprint"; SimpleCol (a ++ ".labels") "labels";
                   SimpleCol (a ++ ".value") "value"; SimpleCol (a ++ ".timestamp_ns") "timestamp_ns"]
-                 [Ord (Raw "fingerprint") true; Ord (Raw "timestamp_ns") true], st1, p')
+                 [Ord (Id "fingerprint") true; Ord (Id "timestamp_ns") true], st1, p')
     else
       Some (base [SimpleCol (a ++ ".fingerprint") "fingerprint"; SimpleCol (a ++ ".labels") "labels";
                   SimpleCol (a ++ ".string") "string"; SimpleCol (a ++ ".timestamp_ns") "timestamp_ns"]
-                 (if is_final then [Ord (Raw "fingerprint") (c_asc c); Ord (Raw "timestamp_ns") (c_asc c)]
-                  else [Ord (Raw "timestamp_ns") (c_asc c)]), st1, p')
+                 (if is_final then [Ord (Id "fingerprint") (c_asc c); Ord (Id "timestamp_ns") (c_asc c)]
+                  else [Ord (Id "timestamp_ns") (c_asc c)]), st1, p')
   end.
 
 (* ---------- planner.plan() for a stream-selector (log) script ---------- *)
